@@ -98,11 +98,20 @@ def measure(item):
     kind = cfg.get("cls", cfg.get("analysis"))
     rep = Report()
     N = 300 if tier == "quick" else 1000
-    word = (WORD[rot:] + WORD[:rot])
-    stream = (word * (N // len(word) + 1))[:N]
     obj, tf = build(cfg, host)
     gaps = "".join("hth2"[i % 4] for i in range(N - 1)) if host == "ind-T2-fill" else ("h" * (N - 1) if tf else "t" * (N - 1))
-    raw = raw_stream(stream, "+" if tf else "b", gaps, tf)
+    if isinstance(rot, int):
+        word = (WORD[rot:] + WORD[:rot])
+        stream = (word * (N // len(word) + 1))[:N]
+        raw = raw_stream(stream, "+" if tf else "b", gaps, tf)
+    else:
+        # long-run streams: the worst case for anything that walks back "while the value repeats"
+        word = rot
+        if rot == "trend":
+            from .c09 import rel_stream
+            raw = rel_stream("u" * N, tf)
+        else:
+            raw = raw_stream({"constant": "U", "flat": "F"}[rot] * N, "+" if tf else "b", gaps, tf)
     cands = fresh(raw)
     m = Meter()
     counts, other = [], []
@@ -163,13 +172,15 @@ def main(prop, tier):
     rots = (0, 3) if tier == "quick" else (0, 2, 4, 6)
     var = A.variant()
     items = [(tier, cfg["label"], host, (r + var["rot"]) % len(WORD)) for cfg in ALL + PATTERNS for host in HOSTS for r in rots]
+    items += [(tier, cfg["label"], host, kind) for cfg in ALL + PATTERNS for host in (("ind", "hex3") if tier == "quick" else HOSTS)
+              for kind in ("constant", "flat", "trend")]
     rep = merge_all(pmap(measure, items, chunksize=2))
     rule = ("every indicator config x host {standalone, T2, T2+fill, member of a 3-indicator Hexital, Hexital member on its own timeframe} x "
             "rotations of a periodic stream containing every candle shape: EVERY append n in [1,N] is measured with sys.monitoring (LINE+PY_START "
             "events inside hexital/indicators, hexital/analysis, core/indicator.py, utils/candles.py, utils/indexing.py); with W the warm-up "
             "horizon, the least-squares slope of events(n) over every n in (W,N] must be <= 0.25 events per candle of history and max events over (3W,N] <= 1.5*max over (W,3W] + 20; states = measured (config, host, rotation, n) points; "
             "non-trivial = distinct (config, host, rotation) run that completed the comparison")
-    return finish(prop, tier, rep, t0, rule=rule, bounds={"N": 300 if tier == "quick" else 1000, "hosts": HOSTS, "rotations": list(rots), "word": WORD,
+    return finish(prop, tier, rep, t0, rule=rule, bounds={"N": 300 if tier == "quick" else 1000, "hosts": HOSTS, "rotations": list(rots), "word": WORD, "long_run_streams": ["constant", "flat", "trend"],
                                                          "counted": COUNTED, "observed_only": OBSERVED},
                   replay_confirm=replay,
                   assumptions=["work = executed line/call events, not seconds", "candle_manager/timeframe code is observed, not judged (the property names indicator code)"])
